@@ -276,3 +276,18 @@ Example C04_example_mirror :
   setup_keys RServer 32 12 ex_material =
     (map Z.of_nat (seq 32 32 ++ seq 76 12), map Z.of_nat (seq 0 32 ++ seq 64 12)).
 Proof. vm_compute. split; reflexivity. Qed.
+
+(* the hypotheses of C04_identity_policy_ascii are met by an upper-case hex digest *)
+Example C04_example_policy_ascii :
+  let fps := [([83; 72; 65; 45; 50; 53; 54], [97; 98; 58; 48; 49]); ([109; 100; 53], [48; 48])] in
+  Forall (fun f => ascii (fst f) /\ ascii (snd f)) fps /\
+  (forall n, In n dtls_X509_DIGEST_ALGORITHMS ->
+             ascii (ex_digest n) /\ str_upper (ex_digest n) = ex_digest n) /\
+  validate_identity ex_digest fps = true.
+Proof.
+  split; [repeat (constructor; [split; apply asciib_ok; reflexivity|]); constructor|].
+  split; [|vm_compute; reflexivity].
+  intros n Hin. cbn in Hin.
+  repeat (destruct Hin as [Hin | Hin]; [subst n; split; [apply asciib_ok; reflexivity | reflexivity]|]).
+  contradiction.
+Qed.
